@@ -509,8 +509,11 @@ func (c *diskCache) availableOrTryProxy(kind cache.EntryKind, hash string, size 
 						blobPath, zstd, item.legacy, err)
 					_ = f.Close()
 
+					// Only drop the entry if it still is the one we failed to
+					// read: another request may have removed it already, or
+					// replaced it with a freshly uploaded (valid) blob.
 					c.mu.Lock()
-					c.lru.RemoveElement(listElem)
+					c.lru.RemoveKeyIfUnchanged(key, item)
 					c.mu.Unlock()
 				} else {
 					return rc, item.size, false, nil
